@@ -871,29 +871,23 @@ pub fn run(ctx: &Ctx) -> Result<Report, String> {
 
     // ---- part B: byte level (io::Write, utf8_writer, tty_writer) over the 8 character symbols
     let mut byte_seq_counts = vec![];
-    for len in 0..=chunk_max_len {
-        let total = (BYTE_SYMS.len() as u64).pow(len as u32);
-        byte_seq_counts.push(total);
-        let cfgs: &Vec<Config> = chunk_cfgs[len];
-        (0..total).into_par_iter().for_each_init(Ctxs::new, |ctxs, idx| {
-            if capped.load(Ordering::Relaxed) {
-                return;
-            }
-            if idx % 256 == 0 && ctx.over_cap() {
-                capped.store(true, Ordering::Relaxed);
-                return;
-            }
-            let seq: Vec<u8> = seq_from_index(idx, len, BYTE_SYMS.len() as u64).iter().map(|d| BYTE_SYMS[*d as usize]).collect();
-            let mut nt = 0u64;
-            let parts_utf8 = partitions_for(utf8_bytes(&seq).len());
-            let parts_tty = partitions_for(tty_bytes(&seq).len());
+    // one byte-level case: `seq` written through the three byte paths into every configuration, whole and under
+    // the given partitions; `tty_ok` selects the configurations the (slower) tty path is run for
+    let byte_case = |ctxs: &mut Ctxs,
+                     seq: &[u8],
+                     cfgs: &[Config],
+                     tty_ok: &dyn Fn(&Config) -> bool,
+                     parts_utf8: &(Vec<Vec<usize>>, bool),
+                     parts_tty: &(Vec<Vec<usize>>, bool)| {
+        let seq: Vec<u8> = seq.to_vec();
+        let mut nt = 0u64;
             for cfg in cfgs {
                 let reference = match check_contain(ctxs, &seq, cfg, P_PUT, None) {
                     Ok(d) => d,
                     Err(_) => continue, // reported by part A
                 };
                 for path in [P_IO, P_UTF8, P_TTY] {
-                    if path == P_TTY && !chunk_cfgs_tty[len].contains(cfg) {
+                    if path == P_TTY && !tty_ok(cfg) {
                         continue;
                     }
                     ev_bytes.fetch_add(1, Ordering::Relaxed);
@@ -924,7 +918,7 @@ pub fn run(ctx: &Ctx) -> Result<Report, String> {
                     if canvas_hash(&whole) != fresh_hash {
                         nt += 1;
                     }
-                    let (parts, full) = if path == P_TTY { &parts_tty } else { &parts_utf8 };
+                    let (parts, full) = if path == P_TTY { parts_tty } else { parts_utf8 };
                     for p in parts {
                         if *full {
                             ev_chunk.fetch_add(1, Ordering::Relaxed);
@@ -961,15 +955,62 @@ pub fn run(ctx: &Ctx) -> Result<Report, String> {
                     }
                 }
             }
-            nontrivial.fetch_add(nt, Ordering::Relaxed);
+        nontrivial.fetch_add(nt, Ordering::Relaxed);
+    };
+    for len in 0..=chunk_max_len {
+        let total = (BYTE_SYMS.len() as u64).pow(len as u32);
+        byte_seq_counts.push(total);
+        let cfgs: &Vec<Config> = chunk_cfgs[len];
+        (0..total).into_par_iter().for_each_init(Ctxs::new, |ctxs, idx| {
+            if capped.load(Ordering::Relaxed) {
+                return;
+            }
+            if idx % 256 == 0 && ctx.over_cap() {
+                capped.store(true, Ordering::Relaxed);
+                return;
+            }
+            let seq: Vec<u8> = seq_from_index(idx, len, BYTE_SYMS.len() as u64).iter().map(|d| BYTE_SYMS[*d as usize]).collect();
+            let parts_utf8 = partitions_for(utf8_bytes(&seq).len());
+            let parts_tty = partitions_for(tty_bytes(&seq).len());
+            byte_case(ctxs, &seq, cfgs, &|cfg| chunk_cfgs_tty[len].contains(cfg), &parts_utf8, &parts_tty);
         });
     }
+
+    // ---- part B': long runs. 33 / 70 narrow characters, then each byte-level symbol, then three more characters:
+    // whole, cut at every single position, and byte by byte (bulk handling of long writes must not change the cells)
+    let long_seqs: Vec<Vec<u8>> = [33usize, 70]
+        .iter()
+        .flat_map(|k| {
+            BYTE_SYMS.iter().map(move |s| {
+                let mut v = vec![0u8; *k];
+                v.push(*s);
+                v.extend([0u8, 2, 0]);
+                v
+            })
+        })
+        .collect();
+    let long_cfgs = chunk_cfgs[chunk_max_len];
+    long_seqs.par_iter().for_each_init(Ctxs::new, |ctxs, seq| {
+        if capped.load(Ordering::Relaxed) {
+            return;
+        }
+        let cuts = |n: usize| -> (Vec<Vec<usize>>, bool) {
+            let mut v: Vec<Vec<usize>> = (1..n).map(|a| vec![a, n - a]).collect();
+            v.push(vec![1; n]);
+            (v, false)
+        };
+        let parts_utf8 = cuts(utf8_bytes(seq).len());
+        let parts_tty = cuts(tty_bytes(seq).len());
+        byte_case(ctxs, seq, long_cfgs, &|cfg| chunk_cfgs_tty[chunk_max_len].contains(cfg), &parts_utf8, &parts_tty);
+    });
+    let long_run_sequences = long_seqs.len();
     let capped = capped.load(Ordering::Relaxed);
     let distinct_canvases: usize = outcomes.iter().map(|m| m.lock().unwrap().len()).sum();
     let distinct_text: usize = text_outcomes.iter().map(|m| m.lock().unwrap().len()).sum();
     let g = |a: &AtomicU64| a.load(Ordering::Relaxed);
     let evaluations = g(&ev_put) + g(&ev_text_view) + g(&ev_bytes) + g(&ev_chunk) + g(&ev_chunk_capped) + g(&ev_text);
     let mut r = Report::new("exploration");
+    r.set("long_run_sequences", long_run_sequences);
     r.set("evaluations", evaluations)
         .set("distinct_nontrivial", g(&nontrivial))
         .set(
